@@ -301,6 +301,8 @@ pub fn c09_shapes(thorough: bool, seed: u64) -> Vec<Shape> {
         Shape::new("three_commits_alloc_pair", &[Commit, Commit, Commit, Alloc, Alloc, Con], &[]),
         Shape::new("closure_without_gates", &[Commit, AllocMul], &[&[Chal, Con]]),
         Shape::new("phase2_single_open_allocation", &[Commit, AllocMul, Con], &[&[Chal, Alloc, Con]]),
+        Shape::new("lone_allocation_at_end_of_first_phase", &[Commit, AllocMul, Alloc, Con], &[]),
+        Shape::new("lone_allocation_then_randomized_gate", &[Commit, Alloc], &[&[Chal, AllocMul, Con]]),
     ];
     if thorough {
         v.extend(crate::shapes::c01_shapes(true, seed).into_iter().filter(|s| !matches!(s.coef, Coef::Mixed(_))));
